@@ -312,7 +312,7 @@ pub fn abbreviate(v: &Value) -> Value {
 }
 
 pub fn write_replay(prop: &str, sub: &str, case: &Value, msg: &str) -> PathBuf {
-    let dir = PathBuf::from(VERIF_ROOT).join("replays").join(prop);
+    let dir = std::env::var("VERIF_REPLAY_DIR").map(PathBuf::from).unwrap_or_else(|_| PathBuf::from(VERIF_ROOT).join("replays")).join(prop);
     let _ = std::fs::create_dir_all(&dir);
     let body = json!({ "property": prop, "sub": sub, "message": msg, "case": case });
     let text = serde_json::to_string_pretty(&body).unwrap();
@@ -712,7 +712,7 @@ pub fn run_property(p: &Property, ctx: &Ctx, only_sub: Option<&str>) -> i32 {
     for k in known.iter().filter(|k| k.property == p.id && k.status == "open") {
         println!("KNOWN-FINDING: property={} {}", p.id, k.what);
     }
-    if only_sub.is_none() {
+    if only_sub.is_none() && std::env::var_os("VERIF_NO_EVIDENCE").is_none() {
         write_evidence(p, ctx, &reports, violations, t0.elapsed().as_secs_f64());
     }
     exit
